@@ -10,8 +10,8 @@ Section RowCodec.
   Variable c : list str.
   Hypothesis c_len : length c = 96%nat.
 
-  Notation step := (row_step unit unit unit (ttx_dec c) None).
-  Notation fold := (row_fold unit unit unit (ttx_dec c) None).
+  Notation step := (row_step unit unit unit (ttx_cell_dec c) None).
+  Notation fold := (row_fold unit unit unit (ttx_cell_dec c) None).
   Notation app_item := (append_item unit unit None).
   Notation mkR l li b := (mkRowst l li b tt).
 
@@ -70,9 +70,9 @@ Section RowCodec.
     unfold is_text_cell. intros H. apply andb_true_iff in H. destruct H as [H H3]. apply andb_true_iff in H. destruct H as [H1 H2].
     apply negb_true_iff in H1. apply is_attr_false in H1. apply negb_true_iff in H2. apply N.eqb_neq in H2. apply N.ltb_lt in H3. lia.
   Qed.
-  Lemma decode_text v : v < 128 -> ttx_dec c tt v = Ok (cell_text c v, tt).
+  Lemma decode_text v : v < 128 -> ttx_cell_dec c tt v = Ok (cell_text c v, tt).
   Proof.
-    intros H2. unfold ttx_dec, cd_decode, cell_text. destruct (N.ltb_spec v 32); [reflexivity|].
+    intros H2. unfold ttx_cell_dec, cd_decode, cell_text. destruct (N.ltb_spec v 32); [reflexivity|].
     destruct (nth_error c (N.to_nat (v - 32))) as [x|] eqn:E.
     - rewrite (nth_error_nth _ _ _ E). reflexivity.
     - apply nth_error_None in E. lia.
